@@ -29,6 +29,21 @@ def mkarr(codes, r, c, s, n, f, **cfg):
         x = Fxp(a.ravel()[::-1].reshape(a.shape).copy(), s, n, f, raw=True, **cfg)
         warm(x)
         return overwrite_in_place(x, codes)
+    if hist_of(n, f, r, c, *[v % 89 for v in codes[:3]]) % 4 == 1:
+        # (content-determined) the array was re-formatted before it is used: born in another format (the other signedness, a wider
+        # word), brought to its format by a format string, a Q-notation string or keywords, and then given its codes
+        born_signed = (not s) if (n + len(codes)) % 2 else s
+        x = Fxp(np.zeros_like(a), born_signed, n + 4, max(f, 0) + 1, **cfg)
+        k = (n + f + len(codes)) % 3
+        if k == 0:
+            x.resize(dtype='fxp-%s%d/%d' % ('s' if s else 'u', n, f))
+        elif k == 1 and 0 <= f <= n:
+            x.resize(dtype='%s%d.%d' % ('Q' if s else 'UQ', n - f, f))
+        else:
+            x.resize(signed=s, n_word=n, n_frac=f)
+        x.set_val(a, raw=True)
+        assert codes_of(x) == [int(v) for v in codes] and (bool(x.signed), x.n_word, x.n_frac) == (s, n, f)
+        return x
     return Fxp(a, s, n, f, raw=True, **cfg)
 
 
@@ -193,6 +208,8 @@ def generate(tier, rng):
         sx, sy = rng.random() < 0.5, rng.random() < 0.5
         nx, ny = rng.randint(1 + int(sx), 12), rng.randint(1 + int(sy), 12)
         fx, fy = (rng.randint(0, nx), rng.randint(0, ny)) if rng.random() < 0.7 else (rng.randint(-2, nx + 3), rng.randint(-2, ny + 3))
+        if rng.random() < 0.1:
+            fx, fy = rng.randint(20, 45), rng.randint(20, 45)      # tiny values: the result has 54 fraction bits and more in a short word (D66)
         k = rng.randint(1, 4)
         shape = rng.choice(['vv', 'mv', 'vm', 'mm'])
         r1, c1 = (0, k) if shape[0] == 'v' else (rng.randint(1, 3), k)
